@@ -81,8 +81,12 @@ func c16(r *core.Run) {
 		r.Notef("pre-existing %s/%s = %s", d, name, m)
 	}
 	src.End()
+	given := uncleanDirs(src, dirs)
+	if fmt.Sprint(given) != fmt.Sprint(dirs) {
+		r.Notef("directories given as %q", given)
+	}
 	e.do("NewCache", func() {
-		c, _ := cdi.NewCache(cdi.WithSpecDirs(dirs...), cdi.WithAutoRefresh(auto))
+		c, _ := cdi.NewCache(cdi.WithSpecDirs(given...), cdi.WithAutoRefresh(auto))
 		e.cache = c
 	})
 	var written []c16Written
